@@ -295,6 +295,17 @@ func (e *Engine) callContract(st *State, fr *Frame, callee *ssa.Function, c *Con
 		e.obligation(st, "call-pre", key+"."+lab+"@"+pos, g, r.Src)
 		st.Assume(g)
 	}
+	// termination of direct recursion: the callee's measure (on its arguments) is below this activation's measure at entry
+	if e.rootC != nil && e.rootC == c && len(c.Decr) > 0 && e.rootFr != nil && e.entry != nil {
+		re := &SpecEnv{e: e, st: e.entry, old: e.entry, fr: e.rootFr, vars: e.params, env: e.rootEnv, pkg: e.rootC.Pkg}
+		e.bindLets(c, re)
+		g := False
+		for i := len(c.Decr) - 1; i >= 0; i-- {
+			old, now := e.evalTerm(c.Decr[i].E, re), e.evalTerm(c.Decr[i].E, se)
+			g = Or(And(Le(IntLit(0), old), Lt(now, old)), And(Eq(now, old), g))
+		}
+		e.obligation(st, "call-decreases", key+"@"+pos, g, "measure of the recursion: "+c.Decr[0].Src)
+	}
 	// the callee consumes what it owns
 	for _, av := range ownsVals {
 		if od := e.isOwnedPtr(av.T); od != nil {
